@@ -117,3 +117,22 @@ def classify(rc, err, tsan=False):
     if rc == -9: return True, 'native run hangs (killed)'
     if rc == 3: return False, 'schedule could not be followed: ' + err.strip()[-200:]
     return False, 'native run under the forced schedule finished with exit code %d %s' % (rc, err.strip()[-200:])
+
+
+def same_kind(assertion, rc, err):
+    """does the native failure have the kind the model's violation has? (an unrelated abort or crash does not confirm a counterexample)"""
+    if assertion.startswith('libassert'):
+        # 'libassert file:line: "text"': the same assert() of the library must fire
+        m = re.search(r'libassert ([^:]+):(\d+)', assertion)
+        return rc in (-6, 134) and bool(m) and ('%s:%s' % (m.group(1), m.group(2))) in err
+    if assertion.startswith('memory:') or assertion.startswith('lifetime'):
+        return any(x in err for x in ('Invalid read', 'Invalid write', 'Invalid free', 'AddressSanitizer', 'uninitialised value', 'Conditional jump')) or rc in (-11, 139)
+    if assertion.startswith('deadlock'):
+        return rc in (45, -9)
+    if assertion.startswith('race') or 'data race' in assertion:
+        return 'ThreadSanitizer: data race' in err
+    if assertion.startswith('rt: std::terminate'):
+        return rc in (-6, 134)
+    # a harness assertion: the same vf_assert must fail
+    return rc == 42 and assertion[:60] in err
+
